@@ -263,6 +263,7 @@ func (cl *Cluster) beginBlock(n *Node, b *lachesis.Block) lachesis.BlockCallback
 	for _, ch := range b.Cheaters {
 		rec.Cheaters = append(rec.Cheaters, uint32(ch))
 	}
+	rec.kept = b.Cheaters
 	n.cur = rec
 	cl.ext.onBeginBlock(n, rec, b)
 	return lachesis.BlockCallbacks{
